@@ -15,6 +15,8 @@ import (
 	"strings"
 	"time"
 
+	"golang.org/x/tools/go/ssa"
+
 	"scverif/an"
 	"scverif/props"
 )
@@ -76,6 +78,21 @@ func main() {
 		fmt.Println("# struct fields of the module on the reference tree: struct, index, name, type (see an/known.go)")
 		for _, l := range an.ListFields(prog) {
 			fmt.Println(l)
+		}
+	case "list-transparent":
+		prog, err := an.Load(nil)
+		if err != nil {
+			fmt.Println(err)
+			os.Exit(2)
+		}
+		for fn := range prog.AllFuncs {
+			an.Instrs(fn, func(in ssa.Instruction) {
+				if call, ok := in.(*ssa.Call); ok {
+					if h := an.TransparentCallee(call); h != nil {
+						fmt.Printf("%s -> %s\n", an.FuncName(fn), an.FuncName(h))
+					}
+				}
+			})
 		}
 	case "sweep":
 		// scverif sweep: load the tree once and run every property's quick rules; prints one line per
